@@ -21,7 +21,7 @@ from mdsim.seams import mem as smem
 PROP = "C05"
 LEVEL = "exploration"
 TECHNIQUE = "deterministic simulation: seeded stateful operation histories over the storage seam (save / overwrite / restart / read) + in-memory dataset reference model"
-RUNS = {"quick": 450, "thorough": 50000}
+RUNS = {"quick": 600, "thorough": 50000}
 JOB_TIMEOUT = 900.0
 COMPONENTS = {
     "real": ["MazeDataset.serialize/_serialize_full/_serialize_minimal/_serialize_minimal_soln_cat/load", "MazeDataset.save/read", "MazeDatasetCollection serialize/load/save/read", "zanj.ZANJ save/read", "stdlib zipfile", "filters used to build inputs"],
